@@ -130,8 +130,8 @@ theorem sorted_drop_id {s : St} (hq : QInv s) (id : Nat) :
   | none => exact hq.sorted
   | some w => exact sorted_qdelete hq.sorted
 
-theorem good_schedule {E : Env} {s : St} (h : Good E s) (id sc : Nat) (off last : Int) :
-    Good E (schedule E s id sc off last) := by
+theorem good_schedule {E : Env} {s : St} (h : Good E s) (id sc : Nat) (off last frac : Int) :
+    Good E (schedule E s id sc off last frac) := by
   unfold schedule
   cases hn : E.nx sc last with
   | none =>
@@ -141,9 +141,9 @@ theorem good_schedule {E : Env} {s : St} (h : Good E s) (id sc : Nat) (off last 
     exact (ht.cons (e := Ev.onErr id) rfl).cons (e := Ev.schedErr id) rfl
   | some nt =>
     simp only
-    obtain ⟨f1, f2, f3, f4, f5⟩ := schedTimer_fields s (nt + off)
-    have h1 : Good E (schedTimer s (nt + off)) := h.congr f1 f2 f3 f4 f5
-    generalize schedTimer s (nt + off) = s1 at h1 ⊢
+    obtain ⟨f1, f2, f3, f4, f5⟩ := schedTimer_fields s ((nt + off) * 1000 + frac)
+    have h1 : Good E (schedTimer s ((nt + off) * 1000 + frac)) := h.congr f1 f2 f3 f4 f5
+    generalize schedTimer s ((nt + off) * 1000 + frac) = s1 at h1 ⊢
     obtain ⟨hq, m, ht, hc⟩ := h1
     -- membership in the new queue
     have hmem : ∀ x, x ∈ qreplace (match aget s1.index id with
